@@ -75,6 +75,46 @@ fn outcome_json(r: &Value, nenvs: usize) -> Value {
     )
 }
 
+/// RecLadder: the second parameter reaches the result only by changing places in the argument list of a recursive
+/// call (rotation, swap, mutual recursion), the recursion running over a list the first parameter holds: whatever
+/// stops unfolding a recursive function has to keep every argument of the call it stops at
+pub fn rec_ladder(lower: bool) -> Vec<(Program, Vec<V>)> {
+    use crate::ast::{Expr, Helper, Pat};
+    let (pl, p2) = if lower { ("plist", "p2") } else { ("PLIST", "P2") };
+    let v = |n: &str| Expr::Var(n.to_string());
+    let pv = |n: &str| Pat::Var(n.to_string());
+    let call = |f: &str, a: Vec<Expr>| Expr::Call(f.to_string(), a, None);
+    let rest = |e: Expr| Expr::Prim(6, vec![e]);
+    let iff = |c: Expr, t: Expr, e: Expr| Expr::If(Box::new(c), Box::new(t), Box::new(e));
+    let lit = |n: i64| Expr::Lit(V::int(n));
+    let defun = |name: &str, ps: Vec<&str>, body: Expr, inline: bool| Helper::Defun { name: name.to_string(), pat: Pat::list(ps.iter().map(|x| pv(x)).collect(), Pat::Nil), body, inline };
+    let args = Pat::list(vec![pv(pl), pv(p2)], Pat::Nil);
+    let envs: Vec<V> = [vec![1, 1], vec![1, 2, 3], vec![], vec![5], vec![1, 1, 1, 1]].iter().map(|l| V::list(&[V::list(&l.iter().map(|x| V::int(*x)).collect::<Vec<_>>()), V::int(700)])).collect();
+    let mut out = vec![];
+    let progs: Vec<(Vec<Helper>, Expr)> = vec![
+        (vec![defun("rot", vec!["P", "Q", "R", "S"], iff(v("P"), call("rot", vec![rest(v("P")), v("R"), v("S"), v("Q")]), v("Q")), false)],
+            call("rot", vec![v(pl), lit(10), lit(20), v(p2)])),
+        (vec![defun("rot", vec!["P", "Q", "R", "S"], iff(v("P"), call("rot", vec![rest(v("P")), v("R"), v("S"), v("Q")]), v("Q")), false)],
+            call("rot", vec![v(pl), lit(10), v(p2), lit(30)])),
+        (vec![defun("sw", vec!["P", "A", "B"], iff(v("P"), call("sw", vec![rest(v("P")), v("B"), v("A")]), v("A")), false)],
+            call("sw", vec![v(pl), lit(5), v(p2)])),
+        (vec![defun("acc", vec!["P", "A"], iff(v("P"), call("acc", vec![rest(v("P")), Expr::Prim(4, vec![Expr::Prim(5, vec![v("P")]), v("A")])]), v("A")), false)],
+            call("acc", vec![v(pl), v(p2)])),
+        (vec![defun("ev", vec!["P", "A", "B"], iff(v("P"), call("od", vec![rest(v("P")), v("A"), v("B")]), v("A")), false),
+              defun("od", vec!["P", "A", "B"], iff(v("P"), call("ev", vec![rest(v("P")), v("A"), v("B")]), v("B")), false)],
+            call("ev", vec![v(pl), lit(1), v(p2)])),
+        (vec![defun("rot", vec!["P", "Q", "R", "S"], iff(v("P"), call("rot", vec![rest(v("P")), v("R"), v("S"), v("Q")]), v("Q")), false),
+              defun("wrapi", vec!["L", "X"], call("rot", vec![v("L"), lit(1), lit(2), v("X")]), true)],
+            call("wrapi", vec![v(pl), v(p2)])),
+        (vec![defun("last2", vec!["P", "A"], iff(rest(v("P")), call("last2", vec![rest(v("P")), v("A")]), Expr::Prim(4, vec![Expr::Prim(5, vec![v("P")]), v("A")])), false)],
+            iff(v(pl), call("last2", vec![v(pl), v(p2)]), lit(0))),
+    ];
+    for (helpers, body) in progs {
+        out.push((Program { args: args.clone(), helpers, body }, envs.clone()));
+    }
+    out
+}
+
 /// UseLadder: the second parameter reaches the result through every chain of one or two binding / calling /
 /// branching constructs (let, let*, assign, inline call, function call, lambda capture, lambda argument, if with a
 /// constant or a parameter condition, list).  Every construct handles names in its own way in the front end, the
